@@ -135,7 +135,10 @@ func (f *function) diffEnv() (bool, string, diff.ValueDiff, error) {
 	if err != nil {
 		return false, "", nil, fmt.Errorf("comparing function environments: %w", err)
 	}
-	if eq {
+	// Values that compare equal may still differ in a way the function can observe: 1 == 1.0
+	// and 0.0 == -0.0, but they print differently. Such environments are not the same.
+	sameRepr := func(x, y starlark.Value) bool { return x.String() == y.String() }
+	if eq && sameRepr(f.oldEnv, f.newEnv) {
 		return true, "", nil, nil
 	}
 
@@ -153,14 +156,21 @@ func (f *function) diffEnv() (bool, string, diff.ValueDiff, error) {
 		return false, "", nil, fmt.Errorf("diffing environments: %w", err)
 	}
 	md, ok := d.(*diff.MappingDiff)
-	if !ok {
+	if !ok && !eq {
 		panic(fmt.Errorf("expected a diff in unequal environments"))
 	}
 
 	var reasons []string
 
 	for _, k := range functionEnvKeys {
-		if md.Has(k) {
+		if md != nil && md.Has(k) {
+			reasons = append(reasons, string(k))
+			continue
+		}
+		// Equal under ==, different as written (see above).
+		oldPart, okOld, _ := oldEnv.Get(k)
+		newPart, okNew, _ := newEnv.Get(k)
+		if okOld && okNew && !sameRepr(oldPart, newPart) {
 			reasons = append(reasons, string(k))
 		}
 	}
